@@ -107,8 +107,11 @@ impl From<PanicInfo> for PanicInfo2 {
     }
 }
 
+/// A single allocation during deserialize may be at most max(8 MiB, 64 x input length): the
+/// floor covers working memory that only depends on a small configuration field (a t-digest
+/// with k = 65535 needs 4.2 MiB of buffers whatever the input), the factor covers decoded data.
 pub fn alloc_limit_for(len: usize) -> usize {
-    (1usize << 20).max(64 * len)
+    (8usize << 20).max(64 * len)
 }
 
 /// Worker loop: reads "entry hex" lines from stdin, answers one line per case.
